@@ -329,6 +329,11 @@ class Ctx:
         for f in self.known:
             if f['id'] in self.known_hits:
                 print('KNOWN-FINDING: property=%s %s: %s' % (self.pid, f['id'], f['what']))
+        rdir = os.path.join(VERIF, 'replays', self.pid)
+        if os.path.isdir(rdir):
+            for fn in os.listdir(rdir):          # replays of earlier runs are stale
+                if fn.endswith('.json'):
+                    os.unlink(os.path.join(rdir, fn))
         if self.violations:
             os.makedirs(os.path.join(VERIF, 'replays', self.pid), exist_ok=True)
             seen = set()
